@@ -617,6 +617,20 @@ bool Instance::configure_tx_txin() {
             stack.push_back(wstack[i]);
         }
     } else {
+        // a witness program (native, or as the P2SH redeem script pushed by the scriptSig) must be given a witness
+        int wpver;
+        std::vector<unsigned char> wprog;
+        bool empty_witness_program = scriptPubKey.IsWitnessProgram(wpver, wprog);
+        if (!empty_witness_program && scriptPubKey.IsPayToScriptHash() && scriptSig.IsPushOnly()) {
+            CScript::const_iterator its = scriptSig.begin();
+            std::vector<uint8_t> last;
+            while (its < scriptSig.end() && scriptSig.GetOp(its, opcode, pushval)) last = pushval;
+            empty_witness_program = CScript(last.begin(), last.end()).IsWitnessProgram(wpver, wprog);
+        }
+        if (empty_witness_program) {
+            fprintf(stderr, "error: witness program was passed an empty witness\n");
+            return false;
+        }
         // legacy
         sigver = SigVersion::BASE;
         script = scriptSig;
